@@ -7,7 +7,6 @@ ROOT = os.path.join(os.path.dirname(os.path.abspath(__file__)), '..')
 
 NA = {
  "C12": "etcd-raft + goroutine pipelines + network schedules + Pebble; nothing encodable decides a clause",
- "C14": "differential behaviour of a Pebble-backed store against etcd MemoryStorage over histories and crash points",
  "C28": "ordering across goroutines, mailboxes and an ants pool; the SSA executor has no goroutine scheduler",
  "C31": "concurrent shard workers with port latencies; no goroutine scheduler in the executor",
  "C37": "the property is the concurrency itself (ants pools, timers, close races)",
@@ -136,6 +135,10 @@ claim("C11", "other",
 claim("C09", "other",
       "Slice, under Pebble's contract taken as axioms (A1 a batch commit is atomic; A2 commits become durable in commit order; A3 a synced commit that returned nil is durable together with everything before it, un-synced commits may be lost as a suffix at a power loss): every message-store mutation (Append, follower ApplyFetch with and without checkpoint, TruncateFrom, TrimPrefixThrough, StoreCheckpoint(Monotonic); the compat ChannelStore paths incl. retention adoption, paged trims and dispatch cursors; exact proposal appends, ReplaceRecoverySuffix, DiscardForRestore) is run on the in-memory engine with a crash injected at EVERY commit boundary and a restart keeping any number of un-synced commits: the recovered store (rows, all secondary indexes, proposal identities, checkpoint, retention state, LEO = last stored row or retained floor, HW <= LEO) equals the reference after some prefix of the issued operations, the in-flight operation all or nothing, every operation that reported success on a durable path included; 2-operation (thorough 3) histories likewise.",
       "Pebble itself (WAL, torn writes) is the axiom, not the subject; group commit of several requests into one physical batch, concurrency, the meta DB, epoch history, snapshot install and multi-channel batch APIs are not covered; the two deliberately un-synced paths (StoreCommittedDispatchCursor, deleteLatestMessageIndexes) are excluded from the durability obligation as documented by the code; DiscardForRestore is multi-commit by design - asserted: untouched, empty, or half-discarded with LoadDurableFrontier failing closed and a repeated discard completing; C07-F2 pattern assumed away as in C07. " + TB)
+
+claim("C14", "other",
+      "Slice: pkg/raftlog executed from source with the Pebble MODULE replaced by an in-memory shim (atomic batches, range deletes, bounded iterators, commit fault injection). For every Raft-valid history of 3 operations over {Save(hard state + entries incl. an overwrite of a conflicting suffix), Save with a snapshot / compaction, MarkApplied, MarkConfigApplied} the durable store answers InitialState, Entries(lo,hi), Term(i), FirstIndex, LastIndex and Snapshot exactly as the package's reference in-memory storage - after every operation, after a kill + reopen at any commit boundary (state before or after the operation, never a mix: every flush is exactly one Pebble commit), and after Close + Open; a failing commit returns the error and leaves the state unchanged; two scopes sharing one batch are each all-or-nothing; it never returns entries below the compaction point nor a term for an index it does not hold.",
+      "Real Pebble (WAL, LSM, fsync, power loss inside a commit) is the axiom, not the subject; raftlog.Open, the write queue (submitWrite / runWriteWorker batching, timers) and snapshot chunk files are bypassed: the DB struct is built directly, the real flushWriteRequests is called with the requests Save / MarkApplied build, and snapshots are observed through their Pebble manifest; indexes enumerated in windows at 1, 254 (65534 thorough), terms 1..127 symbolic, one payload byte symbolic, applied indexes any uint64; the reference is pkg/raftlog/memory.go (etcd's MemoryStorage cannot be loaded from source). " + TB)
 
 def main():
     props = [json.loads(l) for l in open(os.path.join(ROOT, 'properties.jsonl'))]
